@@ -106,6 +106,30 @@ claim('C12',
       'SVD (mode N); inputs are digested before/after.',
       'Kernel contract of numpy.linalg.svd; boundary tolerances only where float arithmetic is exact; split_mps_tensor '
       'clauses are mode-N flags computed by the harness (1e-9).')
+claim('C01',
+      'TLC model checking of the canonicalisation sweep Canon.tla (all bond-charge layouts, both modes, MPS and MPO) + '
+      'TLC trace validation (TraceCanon.tla) of every local factorization of real orthonormalize calls; exact '
+      'norm / state identities on integer and Gaussian-integer states evaluated by TLC',
+      'Canon.tla is the sweep (one action per local QR, sign flip, return) over the closed forms of BondOps.tla: forms, '
+      'sweep order, bond charges bounded by the block-wise min, dummy branch <=> zero state, non-negative factor, '
+      'boundary charges of non-zero states unchanged - checked for every layout of the universe. Real calls on random '
+      'sector-consistent MPS/MPO of every style named in the property (L=1, d=1, D=1, all-zero / sorted / repeated / '
+      'disjoint charges, real / complex / integer entries, both modes, both classes) are recorded step by step and '
+      'validated against the sweep; for integer and Gaussian-integer states TLC checks nrm^2 = ||v||^2 and '
+      'nrm * v_new = v_old exactly; generic entries are mode N (1e-10).',
+      'Closed forms of the block QR (model checked in BondOps.tla); wrappers on local_orthonormalize_*; mode-N bounds.')
+claim('C13',
+      'TLC model checking of Canon.tla with op = compress (sweeps, no growth, scale bound prod(1-e_i) >= 1 - L tol) + TLC '
+      'trace validation (TraceCanon.tla) of real compress / from_vector calls; the exact rational truncation rule '
+      '(KeepAllowed) decides the first truncated bond on designed Schmidt spectra',
+      'The compress machine (preparatory sweep in the opposite direction, truncating sweep, dimensions never grow, '
+      'canonical result, scale^2 = prod(1-e_i) >= 1 - sum e_i) is model checked; real compress calls are validated step '
+      'by step; on states with designed integer Schmidt weights (flat, stair-case, product, geometric, with and without '
+      'U(1) sectors) TLC decides with exact rational arithmetic that the first truncated bond keeps exactly the '
+      'prescribed values; norm, scale range, the error identity in squared form, unit norm and the from_vector bound '
+      '(vectors of norm far from one, weakly entangled vectors at tol = 0) are mode N.',
+      'Tolerances coinciding with a cumulative weight are excluded for compress (rounding of the preparatory sweep makes '
+      'the tie undecidable); mode-N bounds 1e-10 / 5e-13.')
 
 def main():
     props = [json.loads(l) for l in open(os.path.join(VERIF, 'properties.jsonl'))]
